@@ -104,6 +104,8 @@ pub struct FunctionCall {
     pub arguments: Vec<Expr>,
 }
 
+static END_OF_TOKENS: TokenKind = TokenKind::EOT;
+
 struct Parser {
     tokens: Vec<Token>,
     current: usize,
@@ -153,7 +155,7 @@ impl Parser {
             if self.current > self.tokens.len() - 1 {
                 return Err(PakhiErr::UnexpectedError("Error at last line, Expected a ';'".to_string()));
             }
-            if self.tokens[self.current].kind == TokenKind::Semicolon {
+            if *self.kind_at(self.current) == TokenKind::Semicolon {
                 // useful semicolon should be consumed by self.statements()
                 // if not consumed assuming not useful semicolon
                 // function call needs this
@@ -169,7 +171,7 @@ impl Parser {
     fn statements(&mut self) -> Result<Stmt, PakhiErr> {
         let (line, file_name) = self.get_token_line_file_name(self.current)?;
 
-        match self.tokens[self.current].kind {
+        match *self.kind_at(self.current) {
             TokenKind::Print => self.print_stmt(),
             TokenKind::PrintNoEOL => self.print_no_newline_stmt(),
             TokenKind::Var => self.assignment_stmt(),
@@ -199,7 +201,7 @@ impl Parser {
         // skipping module keyword token
         self.current += 1;
 
-        if self.tokens[self.current].kind == TokenKind::Identifier {
+        if *self.kind_at(self.current) == TokenKind::Identifier {
             let module_import_name = self.tokens[self.current].lexeme.clone();
             match self.named_module_import(module_import_name) {
                 Ok(_) => {},
@@ -226,13 +228,13 @@ impl Parser {
         // skipping module name identifier token and equal token
         self.current += 2;
 
-        let module_path = match  self.tokens[self.current].kind {
+        let module_path = match  *self.kind_at(self.current) {
             TokenKind::String(ref path) => {
                 let mut concated_module_path = Path::new(path).to_path_buf();
                 self.current += 1;
 
-                while self.tokens[self.current].kind != TokenKind::Semicolon {
-                    match self.tokens[self.current].kind {
+                while *self.kind_at(self.current) != TokenKind::Semicolon {
+                    match *self.kind_at(self.current) {
                         TokenKind::String(ref p) => {
                             let rest_of_the_path = Path::new(p);
                             concated_module_path = concated_module_path.join(rest_of_the_path);
@@ -488,7 +490,7 @@ impl Parser {
         let (line, file_name) = self.get_token_line_file_name(self.current)?;
 
         // probably array indexing after function call won't work
-        if self.tokens[self.current + 1].kind == TokenKind::ParenStart {
+        if *self.kind_at(self.current + 1) == TokenKind::ParenStart {
             // assuming its a function call statement
             let expr = self.expression()?;
 
@@ -505,7 +507,7 @@ impl Parser {
 
         // consuming var token
         self.current += 1;
-        if self.tokens[self.current].kind != TokenKind::Identifier {
+        if *self.kind_at(self.current) != TokenKind::Identifier {
             let (line, file_name) = self.extract_err_meta()?;
             return Err(PakhiErr::SyntaxError(line, file_name, "Expected an Identifier".to_string()));
         }
@@ -515,7 +517,7 @@ impl Parser {
         // consuming identifier token
         self.current += 1;
         let stmt;
-        if self.tokens[self.current].kind == TokenKind::Semicolon {
+        if *self.kind_at(self.current) == TokenKind::Semicolon {
             // no value provided to initialize variable
             stmt = Stmt::Assignment(Assignment {
                 kind: AssignmentKind::FirstAssignment,
@@ -537,7 +539,7 @@ impl Parser {
             }, line, file_name);
         }
 
-        if self.tokens[self.current].kind != TokenKind::Semicolon {
+        if *self.kind_at(self.current) != TokenKind::Semicolon {
             // newline was consumed, os actual error was at previous line
             if self.current >= self.tokens.len() {
                 return Err(PakhiErr::UnexpectedError("Unexpected error".to_string()));
@@ -556,8 +558,8 @@ impl Parser {
     fn re_assignment_stmt(&mut self) -> Result<Stmt, PakhiErr> {
         let (line, file_name) = self.get_token_line_file_name(self.current)?;
 
-        if self.tokens[self.current+1].kind != TokenKind::Equal &&
-            self.tokens[self.current+1].kind != TokenKind::SquareBraceStart {
+        if *self.kind_at(self.current + 1) != TokenKind::Equal &&
+            *self.kind_at(self.current + 1) != TokenKind::SquareBraceStart {
             // not a reassignment, only expression statement;
             return self.expression_stmt();
         }
@@ -568,7 +570,7 @@ impl Parser {
 
         // indexes will be populated only if assigning to array element, otherwise it will be empty
         let mut indexes: Vec<Expr> = Vec::new();
-        while self.tokens[self.current].kind != TokenKind::Equal {
+        while *self.kind_at(self.current) != TokenKind::Equal {
             let index = self.expression()?;
             if let Expr::Primary(Primary::List(_), _, _) = index {
                 indexes.push(index);
@@ -578,7 +580,7 @@ impl Parser {
             }
         }
 
-        if self.tokens[self.current].kind != TokenKind::Equal {
+        if *self.kind_at(self.current) != TokenKind::Equal {
             let (line, file_name) = self.extract_err_meta()?;
             return Err(PakhiErr::SyntaxError(line, file_name, "Expected '='".to_string()));
         }
@@ -633,7 +635,7 @@ impl Parser {
         self.current += 1;
 
         let mut return_value = Expr::Primary(Primary::Nil, line, file_name.clone());
-        if self.tokens[self.current].kind != TokenKind::Semicolon {
+        if *self.kind_at(self.current) != TokenKind::Semicolon {
             // if not semicolon function return a value
             return_value = self.expression()?;
         }
@@ -702,7 +704,7 @@ impl Parser {
     fn or(&mut self) -> Result<Expr, PakhiErr> {
         let mut expr = self.and()?;
 
-        while self.tokens[self.current].kind == TokenKind::Or {
+        while *self.kind_at(self.current) == TokenKind::Or {
             self.current += 1;
             let right = self.and()?;
 
@@ -719,7 +721,7 @@ impl Parser {
     fn and(&mut self) -> Result<Expr, PakhiErr> {
         let mut expr = self.equality()?;
 
-        while self.tokens[self.current].kind == TokenKind::And {
+        while *self.kind_at(self.current) == TokenKind::And {
             self.current += 1;
             let right = self.equality()?;
 
@@ -736,10 +738,10 @@ impl Parser {
     fn equality(&mut self) -> Result<Expr, PakhiErr> {
         let mut expr = self.comparison()?;
 
-        while self.tokens[self.current].kind == TokenKind::NotEqual ||
-            self.tokens[self.current].kind == TokenKind:: EqualEqual
+        while *self.kind_at(self.current) == TokenKind::NotEqual ||
+            *self.kind_at(self.current) == TokenKind:: EqualEqual
         {
-            let operator = self.tokens[self.current].kind.clone();
+            let operator = self.kind_at(self.current).clone();
             self.current += 1;
             let right = self.comparison()?;
 
@@ -757,12 +759,12 @@ impl Parser {
     fn comparison(&mut self) -> Result<Expr, PakhiErr> {
         let mut expr = self.addition()?;
 
-        while self.tokens[self.current].kind == TokenKind::GreaterThan ||
-            self.tokens[self.current].kind == TokenKind::GreaterThanOrEqual ||
-            self.tokens[self.current].kind == TokenKind::LessThan ||
-            self.tokens[self.current].kind == TokenKind::LessThanOrEqual
+        while *self.kind_at(self.current) == TokenKind::GreaterThan ||
+            *self.kind_at(self.current) == TokenKind::GreaterThanOrEqual ||
+            *self.kind_at(self.current) == TokenKind::LessThan ||
+            *self.kind_at(self.current) == TokenKind::LessThanOrEqual
         {
-            let operator = self.tokens[self.current].kind.clone();
+            let operator = self.kind_at(self.current).clone();
             self.current += 1;
             let right = self.addition()?;
 
@@ -780,10 +782,10 @@ impl Parser {
     fn addition(&mut self) -> Result<Expr, PakhiErr> {
         let mut expr = self.multiplication()?;
 
-        while self.tokens[self.current].kind == TokenKind::Plus ||
-            self.tokens[self.current].kind == TokenKind::Minus
+        while *self.kind_at(self.current) == TokenKind::Plus ||
+            *self.kind_at(self.current) == TokenKind::Minus
         {
-            let operator = self.tokens[self.current].kind.clone();
+            let operator = self.kind_at(self.current).clone();
             self.current += 1;
             let right = self.multiplication()?;
 
@@ -801,11 +803,11 @@ impl Parser {
     fn multiplication(&mut self) -> Result<Expr, PakhiErr> {
         let mut expr = self.unary()?;
 
-        while self.tokens[self.current].kind == TokenKind::Multiply ||
-            self.tokens[self.current].kind == TokenKind::Division ||
-            self.tokens[self.current].kind == TokenKind::Remainder
+        while *self.kind_at(self.current) == TokenKind::Multiply ||
+            *self.kind_at(self.current) == TokenKind::Division ||
+            *self.kind_at(self.current) == TokenKind::Remainder
         {
-            let operator = self.tokens[self.current].kind.clone();
+            let operator = self.kind_at(self.current).clone();
             self.current += 1;
             let right = self.unary()?;
             let (line, file_name) = self.get_token_line_file_name(self.current - 1)?;
@@ -820,10 +822,10 @@ impl Parser {
     }
 
     fn unary(&mut self) -> Result<Expr, PakhiErr> {
-        if self.tokens[self.current].kind == TokenKind::Not ||
-            self.tokens[self.current].kind == TokenKind::Minus
+        if *self.kind_at(self.current) == TokenKind::Not ||
+            *self.kind_at(self.current) == TokenKind::Minus
         {
-            let operator = self.tokens[self.current].kind.clone();
+            let operator = self.kind_at(self.current).clone();
             let (line, file_name) = self.get_token_line_file_name(self.current)?;
             self.current += 1;
             let right = self.unary()?;
@@ -842,11 +844,11 @@ impl Parser {
 
         let mut arguments: Vec<Expr> = Vec::new();
 
-        if self.tokens[self.current].kind != TokenKind::ParenEnd {
+        if *self.kind_at(self.current) != TokenKind::ParenEnd {
             loop {
                 let expr = self.expression()?;
                 arguments.push(expr);
-                if self.tokens[self.current].kind == TokenKind::Comma {
+                if *self.kind_at(self.current) == TokenKind::Comma {
                     // consuming , token
                     self.current += 1;
                 } else {
@@ -872,7 +874,7 @@ impl Parser {
 
         // rewrite this to handle method invocation
         loop {
-            if self.tokens[self.current].kind == TokenKind::ParenStart {
+            if *self.kind_at(self.current) == TokenKind::ParenStart {
                 self.current += 1;
                 expr = self.finish_call(expr)?;
             } else {
@@ -884,7 +886,7 @@ impl Parser {
     }
 
     fn primary(&mut self) -> Result<Expr, PakhiErr> {
-        match self.tokens[self.current].kind.clone() {
+        match self.kind_at(self.current).clone() {
             TokenKind::Bool(b) => {
                 self.current += 1;
                 let (line, file_name) = self.get_token_line_file_name(self.current - 1)?;
@@ -912,13 +914,13 @@ impl Parser {
 
                 // this loop works for multi-dimensional or single-dimensional indexing, for example
                 // arr[1][2] or arr[1]
-                while self.tokens[self.current].kind == TokenKind::SquareBraceStart {
+                while *self.kind_at(self.current) == TokenKind::SquareBraceStart {
                     let exprs_first_token_index = self.current;
 
                     // consuming [ token
                     self.current += 1;
                     let i = self.expression()?;
-                    if self.tokens[self.current].kind != TokenKind::SquareBraceEnd {
+                    if *self.kind_at(self.current) != TokenKind::SquareBraceEnd {
                         let (line, file_name) = self.extract_err_meta()?;
                         return Err(PakhiErr::SyntaxError(line, file_name, "Expected ']'".to_string()));
                     }
@@ -950,17 +952,17 @@ impl Parser {
 
                 let mut array_literal: Vec<Expr> = Vec::new();
 
-                while self.tokens[self.current].kind != TokenKind::SquareBraceEnd {
+                while *self.kind_at(self.current) != TokenKind::SquareBraceEnd {
                     let expr = self.expression()?;
                     array_literal.push(expr);
 
-                    if self.tokens[self.current].kind == TokenKind::Comma {
+                    if *self.kind_at(self.current) == TokenKind::Comma {
                         //consuming comma token
                         self.current += 1;
                     }
                 }
 
-                if self.tokens[self.current].kind != TokenKind::SquareBraceEnd {
+                if *self.kind_at(self.current) != TokenKind::SquareBraceEnd {
                     let (line, file_name) = self.extract_err_meta()?;
                     return Err(PakhiErr::SyntaxError(line, file_name, "Expecting ']'".to_string()));
                 }
@@ -979,7 +981,7 @@ impl Parser {
                 // consuming @ token
                 self.current += 1;
 
-                if self.tokens[self.current].kind != TokenKind::CurlyBraceStart {
+                if *self.kind_at(self.current) != TokenKind::CurlyBraceStart {
                     let (line, file_name) = self.extract_err_meta()?;
                     return Err(PakhiErr::SyntaxError(line, file_name, "Expected {{ after '@'".to_string()));
                 }
@@ -989,13 +991,13 @@ impl Parser {
                 let mut keys: Vec<Expr>  = Vec::new();
                 let mut values: Vec<Expr>  = Vec::new();
 
-                while self.tokens[self.current].kind != TokenKind::CurlyBraceEnd {
+                while *self.kind_at(self.current) != TokenKind::CurlyBraceEnd {
                     // pushing key of a key-value pair
                     let expr = self.expression()?;
                     keys.push(expr);
 
                     // Token after key should be colon
-                    if self.tokens[self.current].kind != TokenKind::Map {
+                    if *self.kind_at(self.current) != TokenKind::Map {
                         let (line, file_name) = self.extract_err_meta()?;
                         return Err(PakhiErr::SyntaxError(line, file_name,
                                                          "Expected -> after key name".to_string()));
@@ -1007,13 +1009,13 @@ impl Parser {
                     let expr = self.expression()?;
                     values.push(expr);
 
-                    if self.tokens[self.current].kind == TokenKind::Comma {
+                    if *self.kind_at(self.current) == TokenKind::Comma {
                         // consuming , token
                         self.current += 1
                     }
                 }
 
-                if self.tokens[self.current].kind != TokenKind::CurlyBraceEnd {
+                if *self.kind_at(self.current) != TokenKind::CurlyBraceEnd {
                     let (line, file_name) = self.extract_err_meta()?;
                     return Err(PakhiErr::SyntaxError(line, file_name, "Expecting }}".to_string()));
                 }
@@ -1028,6 +1030,15 @@ impl Parser {
                 return Err(PakhiErr::SyntaxError(line, file_name,
                                     format!("Unexpected Token: {:?}", self.tokens[self.current])));
             },
+        }
+    }
+
+    // Kind of token at index i, parser can look at or move past last token when statement
+    // is incomplete, every token past the end counts as EOT
+    fn kind_at(&self, i: usize) -> &TokenKind {
+        match self.tokens.get(i) {
+            Some(token) => &token.kind,
+            None => &END_OF_TOKENS,
         }
     }
 
